@@ -9,7 +9,7 @@
 EXTENDS Naturals, Sequences, Json, IOUtils, TLC
 
 Cases == ndJsonDeserialize(IOEnv.TRACE_FILE)
-VARIABLE tid
+VARIABLES tid, done
 
 ClassOf(t) == IF t.st # "ok" THEN "Invalid"
               ELSE IF t.data = t.new THEN "Correct"
@@ -46,9 +46,10 @@ Clause(c) ==
         ELSE IF ~OthersNotWrong(c) THEN "oracle:OthersWrongAfterCrash"
         ELSE "ok")
 
-Init == tid \in 1..Len(Cases)
-Next == UNCHANGED tid
-Spec == Init /\ [][Next]_<<tid>>
-Emit == LET cl == Clause(Cases[tid]) IN
+Init == tid \in 1..Len(Cases) /\ done = FALSE
+Next == ~done /\ done' = TRUE /\ UNCHANGED tid
+Spec == Init /\ [][Next]_<<tid, done>>
+Emit == done =>
+        LET cl == Clause(Cases[tid]) IN
         PrintT(<<"VERDICT", tid, IF cl = "ok" THEN "ok" ELSE "bad", cl, 0>>)
 =============================================================================
